@@ -232,8 +232,10 @@ int main(int argc, char** argv) {
                 s.early = true;
                 out << "o ok\n";
             } else if (cmd == "copy") {
+                // a copy is made and ONE of the two lattices is destroyed; work continues with the survivor
+                static int ncopies = 0;
                 Lattice* L2 = new Lattice(*s.L);
-                s.L = L2;
+                if (++ncopies % 2) { delete s.L; s.L = L2; } else { delete L2; }
                 out << "o ok\n";
             } else if (cmd == "dumplattice") {
                 dumpLattice(*s.L);
@@ -541,9 +543,11 @@ int main(int argc, char** argv) {
                             << " " << (ids.count(p) ? ids[p] : -1) << " " << p->getStatus();
                     }
                     out << "\n";
-                } else if (sub == "get" || sub == "prepare" || sub == "compute") {
+                } else if (sub == "get" || sub == "prepare" || sub == "compute" || sub == "ondemand") {
                     unsigned a, b, c, d; is >> a >> b >> c >> d;
                     ElementWithPermFreq<TwoParticleGF>& e = (*s.TPC)(a, b, c, d);
+                    // `ondemand`: ONE look-up; the reference it returned is prepared, computed and evaluated
+                    if (sub == "ondemand") { static_cast<TwoParticleGF&>(e).prepare(); static_cast<TwoParticleGF&>(e).compute(); }
                     if (sub == "prepare") { static_cast<TwoParticleGF&>(e).prepare(); out << "o ok\n"; }
                     else if (sub == "compute") { static_cast<TwoParticleGF&>(e).compute(); out << "o ok\n"; }
                     else {
